@@ -114,29 +114,67 @@ theorem some_pair_rejected :
       decide (e.disp = .raisesNotImplemented)) = true := by
   decide +kernel
 
-def optIff (ks ko : List (Nat × Opt)) (e : OptEntry) : Bool :=
+/-- `optIff` for the entries outside `ks`: accepted exactly when opted out -/
+def optIff (ks : List (Nat × Opt)) (e : OptEntry) : Bool :=
   !e.option.ignorable || decide (e.disp = .raisesOther) || ks.contains e.key ||
-    ko.contains e.key || (decide (e.disp = .accepted) == e.optedOut)
+    (decide (e.disp = .accepted) == e.optedOut)
 
 theorem options_iff_tbl :
-    Generated.options.all (optIff Generated.knownSilent Generated.knownOptOutIneffective)
-      = true := by
+    Generated.options.all (optIff Generated.knownSilent) = true := by
   decide +kernel
 
 theorem options_iff (e : OptEntry) (he : e ∈ Generated.options) (h1 : e.option.ignorable = true)
-    (h2 : e.disp ≠ .raisesOther) (h3 : e.key ∉ Generated.knownSilent)
-    (h4 : e.key ∉ Generated.knownOptOutIneffective) :
+    (h2 : e.disp ≠ .raisesOther) (h3 : e.key ∉ Generated.knownSilent) :
     e.disp = .accepted ↔ e.optedOut = true := by
   have := List.all_eq_true.mp options_iff_tbl e he
-  simp only [optIff, h1, h2, List.contains_eq_mem, h3, h4, Bool.not_true, decide_false,
+  simp only [optIff, h1, h2, List.contains_eq_mem, h3, Bool.not_true, decide_false,
     Bool.or_self, Bool.false_or, beq_iff_eq] at this
   constructor
   · intro h; rw [← this]; simpa using h
   · intro h; rw [h] at this; simpa using this
 
-theorem some_optout_ineffective :
-    Generated.options.any (fun e => e.option.ignorable && e.optedOut &&
-      decide (e.disp = .raisesNotImplemented)) = true := by
+/-- every opt-out works: no exception list (the whole table) -/
+def optOutHonoured (e : OptEntry) : Bool :=
+  !e.option.ignorable || !e.optedOut || decide (e.disp = .raisesOther) ||
+    decide (e.disp = .accepted)
+
+theorem opt_out_honoured_tbl : Generated.options.all optOutHonoured = true := by
   decide +kernel
+
+theorem opt_out_honoured (e : OptEntry) (he : e ∈ Generated.options)
+    (h1 : e.option.ignorable = true) (h2 : e.optedOut = true) (h3 : e.disp ≠ .raisesOther) :
+    e.disp = .accepted := by
+  have := List.all_eq_true.mp opt_out_honoured_tbl e he
+  simpa [optOutHonoured, h1, h2, h3] using this
+
+/-- the table does contain opted-out options that are let through -/
+theorem some_optout_effective :
+    Generated.options.any (fun e => e.option.ignorable && e.optedOut &&
+      decide (e.disp = .accepted)) = true := by
+  decide +kernel
+
+/-- the full equivalence still fails in one direction: an ignorable option that is accepted
+    although the caller has not opted out (`find(collation=…)`) -/
+theorem some_ignorable_silent :
+    Generated.options.any (fun e => e.option.ignorable && !e.optedOut &&
+      decide (e.disp = .accepted)) = true := by
+  decide +kernel
+
+theorem some_ignorable_loud :
+    Generated.options.any (fun e => e.option.ignorable && !e.optedOut &&
+      !Generated.knownSilent.contains e.key && decide (e.disp = .raisesNotImplemented)) = true := by
+  decide +kernel
+
+/-- what is left of the list of silently dropped options, by name: `Collection.find(collation)` -/
+theorem known_silent_named :
+    Generated.knownSilent.all (fun k =>
+      decide (Generated.methods[k.1]? = some ("Collection", "find")) && decide (k.2 = .collation))
+      = true := by
+  decide +kernel
+
+theorem known_silent_is_find_collation (k : Nat × Opt) (hk : k ∈ Generated.knownSilent) :
+    Generated.methods[k.1]? = some ("Collection", "find") ∧ k.2 = .collation := by
+  have := List.all_eq_true.mp known_silent_named k hk
+  simpa using this
 
 end MongoModel.Proofs.C20
